@@ -746,3 +746,33 @@ Example C17_file_with_template_refuted :
     | _ => False
     end.
 Proof. eexists. split; [vm_compute; reflexivity|]. vm_compute. exact I. Qed.
+
+(* the {for} clause of the class with a list expression that is not a variable: lb17_anylast from lb17_anylast_no_minus *)
+Definition ex_for_nodes : list node :=
+  [NFor 0 (b "x") (NBin OSub 0 (NDataRef 0 (b "a") []) (NInt 0 1)) (NList 0 []) None].
+Example C17_for_list_expression_in_class :
+  lb17_okb ex_for_nodes /\ print_tree (NList 0 ex_for_nodes) = Some (b "{for $x in $a - 1}{/for}").
+Proof.
+  split; [|vm_compute; reflexivity].
+  apply lb17_ok_cmd; [|apply lb17_ok_nil].
+  assert (Hwf : wf_expr (NBin OSub 0 (NDataRef 0 (b "a") []) (NInt 0 1))).
+  { cbn. repeat split; try reflexivity; try exact I. }
+  assert (Hlo : lex_ok (NBin OSub 0 (NDataRef 0 (b "a") []) (NInt 0 1))).
+  { cbn. repeat split; try reflexivity; try exact I. }
+  apply lb17_ok_for; [reflexivity|exact Hwf|exact Hlo| |apply lb17_ok_nil].
+  apply lb17_anylast_no_minus; [exact Hwf|exact Hlo|].
+  intros se Hp. vm_compute in Hp. injection Hp as <-. exact I.
+Qed.
+(* and W4 in the models: the printed text of {for $x in (-$a)} is read by the scanner model with the BINARY minus behind "in",
+   and the model of parse.SoyFile refuses the items *)
+Example C17_for_list_minus_refuted :
+  let f := NList 0 [NFor 0 (b "x") (NNeg 0 (NDataRef 0 (b "a") [])) (NList 0 [NRawText 0 (b "b")]) None] in
+  exists txt, print_tree f = Some txt /\
+    match lex_items is_letter_tbl is_digit_tbl (lex_budget txt) false txt with
+    | Ok its => match po_result (soy_file (N.of_nat (length txt)) ex_lexq ex_unq its) with
+                | PErr _ _ _ => True
+                | _ => False
+                end
+    | _ => False
+    end.
+Proof. eexists. split; [vm_compute; reflexivity|]. vm_compute. exact I. Qed.
